@@ -23,8 +23,15 @@ static SAW_HANG: std::sync::atomic::AtomicBool = std::sync::atomic::AtomicBool::
 fn call_watchdog() -> Duration {
     if SAW_HANG.load(std::sync::atomic::Ordering::Relaxed) { Duration::from_secs(2) } else { WATCHDOG }
 }
+static HANGS: std::sync::atomic::AtomicU64 = std::sync::atomic::AtomicU64::new(0);
 fn saw_hang() {
     SAW_HANG.store(true, std::sync::atomic::Ordering::Relaxed);
+    HANGS.fetch_add(1, std::sync::atomic::Ordering::Relaxed);
+}
+/// On a broken tree: after three calls that never returned, or twelve oracle failures, the failing inputs
+/// are on record; running the remaining cases would only repeat them, each at the price of a watchdog.
+fn stop_now(out: &Out) -> bool {
+    out.oracle_failures >= 12 || HANGS.load(std::sync::atomic::Ordering::Relaxed) >= 3
 }
 const CALL_TIMEOUT: Duration = Duration::from_secs(9);
 const KINDS: [&str; 3] = ["blocking", "async", "ws"];
@@ -560,6 +567,15 @@ fn error_response(id: u64, ec: u32) -> Vec<u8> {
     f.h.ec = ec;
     f.to_vec()
 }
+/// Every error code a peer can put into a response: the specified ones, application codes, unknown ones,
+/// the extremes; every third with an error text that is not UTF-8, every fifth with an empty one.
+fn swept_error_response(id: u64, k: usize) -> Vec<u8> {
+    const CODES: [u32; 16] = [1, 2, 3, 4, 5, 6, 7, 8, 9, 10, 11, 255, 4096, 65_536, u32::MAX - 1, u32::MAX];
+    let text: &[u8] = if k % 3 == 2 { &[0xff, 0xfe, 0x80, 0x80] } else if k % 5 == 4 { b"" } else { b"some failure" };
+    let mut f = RawFrame::request(id, false, 1, b"/t", [3u16, 2, 0, 1][k % 4], text);
+    f.h.ec = CODES[k % CODES.len()];
+    f.to_vec()
+}
 fn tag_of(v: &Value) -> Option<i64> {
     v.get("tag")?.as_i64()
 }
@@ -703,6 +719,60 @@ impl Session {
     }
 }
 
+
+// ---------------------------------------------------------------------------------------------
+// entry points, mechanically: what the source under test offers vs what this harness drives
+// ---------------------------------------------------------------------------------------------
+const DRIVEN: &[&str] = &[
+    "call_json", "call_json_with_timeout", "call_typed_json", "call_typed_json_with_timeout", "call_typed_beve", "call_typed_beve_with_timeout",
+    "call_typed_slice", "call_typed_slice_with_timeout", "call_typed_slice_aligned", "call_typed_slice_aligned_with_timeout", "call_message",
+    "call_message_with_timeout", "call_with_formats", "call_with_formats_and_timeout", "registry_read", "registry_read_with_timeout",
+    "registry_read_typed", "registry_read_typed_with_timeout", "registry_write_json", "registry_call_json",
+    "notify_json", "notify_typed_json", "notify_typed_beve", "notify_with_formats", "batch_json", "batch_json_with_timeout",
+    "forward_message", "forward_message_with_timeout", "subscribe_notifies", "unsubscribe_notifies", "limits", "set_write_timeout", "connect",
+];
+/// Not driven, because: `connect_with_limits` only configures the transport limits, which are C17's subject.
+const NOT_DRIVEN_BECAUSE: &[&str] = &["connect_with_limits"];
+
+fn source_entry_points(file: &str) -> Vec<String> {
+    let repo = std::env::var("VERIF_REPO").unwrap_or_else(|_| "/repo".into());
+    let text = std::fs::read_to_string(std::path::Path::new(&repo).join("src").join(file)).unwrap_or_default();
+    let text = text.split("#[cfg(test)]").next().unwrap_or("").to_string();
+    let mut names = Vec::new();
+    for line in text.lines() {
+        let t = line.trim_start();
+        for pre in ["pub async fn ", "pub fn "] {
+            if let Some(rest) = t.strip_prefix(pre) {
+                let name: String = rest.chars().take_while(|c| c.is_alphanumeric() || *c == '_').collect();
+                if !name.is_empty() && !names.contains(&name) {
+                    names.push(name);
+                }
+            }
+        }
+    }
+    names
+}
+
+/// Any public entry point of the three clients that this harness neither drives nor lists as deliberately
+/// left out goes into the evidence (`not_driven`) and onto stderr: a new twin cannot stay unnoticed.
+fn entry_point_audit(out: &mut Out) {
+    let mut missing = Vec::new();
+    let mut total = 0usize;
+    for (kind, file) in [("blocking", "client.rs"), ("async", "async_client.rs"), ("ws", "websocket_client.rs")] {
+        for name in source_entry_points(file) {
+            total += 1;
+            if !DRIVEN.contains(&name.as_str()) && !NOT_DRIVEN_BECAUSE.contains(&name.as_str()) {
+                out.count(&format!("mux.NOT_DRIVEN.{}.{}", kind, name));
+                eprintln!("fam_mux: public entry point {}::{} is not driven by this harness", kind, name);
+                missing.push(format!("{}::{}", kind, name));
+            }
+        }
+    }
+    out.extra.insert("entry_points_in_source".into(), json!(total));
+    out.extra.insert("not_driven".into(), json!(missing));
+    out.extra.insert("not_driven_because".into(), json!({"connect_with_limits": "configures transport limits only (C17)"}));
+}
+
 // ---------------------------------------------------------------------------------------------
 // family `mux`
 // ---------------------------------------------------------------------------------------------
@@ -724,6 +794,9 @@ fn run_mux_case(h: &H, out: &mut Out, idx: &str, case: &MuxCase) {
     let vars_s = if vars.is_empty() { "-".to_string() } else { vars.iter().map(|x| x.to_string()).collect::<Vec<_>>().join(",") };
     let op_of = |ids: &str| format!("case {} {} {} {} {} {} {}", idx, case.kind, case.n, ids, script_s, vars_s, case.frag);
     out.begin(&op_of("?"));
+    if stop_now(out) {
+        return;
+    }
     let fail = |out: &mut Out, sig: &str, detail: String, ids: &str| {
         out.oracle_fail(&format!("mux.{}.{}", kname, sig), &detail, &[op_of(ids)]);
     };
@@ -953,6 +1026,9 @@ fn run_batch_case(h: &H, out: &mut Out, idx: &str, case: &BatchCase) {
     let rev = case.order == [usize::MAX];
     let op = format!("batch {} {} {} {} {}", idx, case.kind, case.n, case.w, if rev { "rev".to_string() } else { case.order.iter().map(|x| x.to_string()).collect::<Vec<_>>().join(",") });
     out.begin(&op);
+    if stop_now(out) {
+        return;
+    }
     let mut s = match h.open(case.kind) {
         Ok(s) => s,
         Err(e) => {
@@ -1060,6 +1136,9 @@ fn run_seq_case(h: &H, out: &mut Out, idx: &str, kind: usize, t: usize, k: usize
     let kname = KINDS[kind];
     let op = if nbig > 0 { format!("seqbig {} {} {} {} {}", idx, kind, t, k, nbig) } else { format!("seq {} {} {} {}", idx, kind, t, k) };
     out.begin(&op);
+    if stop_now(out) {
+        return;
+    }
     let ops = [op.clone()];
     let Ok(mut s) = h.open(kind) else { return };
     s.send(Cmd::Echo(t * k));
@@ -1307,6 +1386,9 @@ fn own(r: &Option<Result<Value, RepeError>>, tag: i64) -> String {
 fn run_fwd_case(h: &H, out: &mut Out, idx: &str, mode: &str) {
     let op = format!("fwd {} 1 {}", idx, mode);
     out.begin(&op);
+    if stop_now(out) {
+        return;
+    }
     let ops = [op.clone()];
     let Ok(mut s) = h.open(1) else { return };
     s.send(Cmd::AutoRead);
@@ -1461,6 +1543,9 @@ fn run_fwd_case(h: &H, out: &mut Out, idx: &str, mode: &str) {
 fn run_fwd_residue_case(h: &H, out: &mut Out, idx: &str) {
     let op = format!("fwdres {} 1", idx);
     out.begin(&op);
+    if stop_now(out) {
+        return;
+    }
     let ops = [op.clone()];
     let Ok(mut s) = h.open(1) else { return };
     s.send(Cmd::AutoRead);
@@ -1564,7 +1649,7 @@ fn serve_until(s: &mut Session, c: usize, how: u8, wd: Duration) -> Option<Resul
             if caller_of(&f) == Some(c) && f.h.notify == 0 {
                 match how {
                     0 => s.send(Cmd::Send(vec![response_v(f.h.id, false, c as i64, c as i64, variant_of(&f))])),
-                    1 => s.send(Cmd::Send(vec![error_response(f.h.id, 7)])),
+                    1 => s.send(Cmd::Send(vec![swept_error_response(f.h.id, c)])),
                     _ => {}
                 }
             } else {
@@ -1586,6 +1671,9 @@ fn run_life_case(h: &H, out: &mut Out, idx: &str, kind: usize, seed: u64) {
     let kname = KINDS[kind];
     let op = format!("life {} {} {}", idx, kind, seed);
     out.begin(&op);
+    if stop_now(out) {
+        return;
+    }
     let ops = [op.clone()];
     let Ok(mut s) = h.open(kind) else { return };
     s.send(Cmd::AutoRead);
@@ -1654,7 +1742,7 @@ fn run_life_case(h: &H, out: &mut Out, idx: &str, kind: usize, seed: u64) {
             }
             "big_response" => {
                 // awaited answers whose frame is 8191 / 8192 / 8193 bytes and 70 kB (the read buffers are 8 KiB)
-                for total in [8191usize, 8192, 8193, 70_000] {
+                for total in [8191usize, 8192, 8193, 70_000, 200_000] {
                     let c = fresh(&mut next_c);
                     s.call_v(h, c, 0, None);
                     let deadline = Instant::now() + call_watchdog();
@@ -1855,6 +1943,9 @@ fn run_drops_case(h: &H, out: &mut Out, idx: &str, kind: usize) {
     let kname = KINDS[kind];
     let op = format!("drops {} {}", idx, kind);
     out.begin(&op);
+    if stop_now(out) {
+        return;
+    }
     if kind != 0 {
         if let Ok(mut s) = h.open(kind) {
             for c in 0..3 {
@@ -2062,6 +2153,9 @@ fn run_dead_case(h: &H, out: &mut Out, idx: &str, case: &DeadCase) {
     let kname = KINDS[case.kind];
     let op = format!("dead {} {} {} {} {} {} {} {}", idx, case.kind, case.n, case.tmo as u8, case.answered, case.fault, case.when, case.cut);
     out.begin(&op);
+    if stop_now(out) {
+        return;
+    }
     let ops = [op.clone()];
     let mut s = match h.open(case.kind) {
         Ok(s) => s,
@@ -2133,6 +2227,12 @@ fn run_dead_case(h: &H, out: &mut Out, idx: &str, case: &DeadCase) {
         "reset" => s.send(Cmd::Reset),
         "wsclose" => s.send(Cmd::SendWsClose),
         "text" => s.send(Cmd::SendText),
+        "hugeframe" => {
+            // one unfragmented 17 MiB binary message (the default inbound frame limit is 16 MiB)
+            let mut raw = ws_frame(0x82, &vec![0u8; 17 << 20]);
+            raw.truncate(1 << 20); // the limit is enforced on the declared length; no need to send it all
+            s.send(Cmd::SendRaw(raw));
+        }
         "cut" => {
             let mut full = response(victim, false, 0, 0);
             if case.kind == 2 {
@@ -2292,6 +2392,9 @@ fn run_tmo_case(h: &H, out: &mut Out, idx: &str, kind: usize, mode: &str, jitter
     let kname = KINDS[kind];
     let op = format!("tmo {} {} {}", idx, kind, mode);
     out.begin(&op);
+    if stop_now(out) {
+        return;
+    }
     let ops = [format!("{} jitter_ms={}", op, jitter_ms)];
     let Ok(mut s) = h.open(kind) else { return };
     // `late.<v>` / `zero.<v>` / `early.<v>`: through the `_with_timeout` twin of entry point <v>
@@ -2409,6 +2512,9 @@ fn run_cancel_case(h: &H, out: &mut Out, idx: &str, kind: usize, mode: &str) {
     let kname = KINDS[kind];
     let op = format!("cancel {} {} {}", idx, kind, mode);
     out.begin(&op);
+    if stop_now(out) {
+        return;
+    }
     let ops = [op.clone()];
     let Ok(mut s) = h.open(kind) else { return };
     let mut residue: Option<u64> = None;
@@ -2483,6 +2589,9 @@ fn run_stall_case(h: &H, out: &mut Out, idx: &str, kind: usize, fault: &str) {
     let kname = KINDS[kind];
     let op = format!("stall {} {} {}", idx, kind, fault);
     out.begin(&op);
+    if stop_now(out) {
+        return;
+    }
     let ops = [op.clone()];
     let Ok(mut s) = h.open(kind) else { return };
     // A: small, written, never answered
@@ -2591,6 +2700,9 @@ fn run_abandon_case(h: &H, out: &mut Out, idx: &str, kind: usize, mib: usize) {
     let kname = KINDS[kind];
     let op = format!("abandon {} {} {}", idx, kind, mib);
     out.begin(&op);
+    if stop_now(out) {
+        return;
+    }
     let ops = [op.clone()];
     let Ok(mut s) = h.open(kind) else { return };
     let pad = "x".repeat(mib << 20);
@@ -2650,6 +2762,9 @@ fn run_wtmo_case(h: &H, out: &mut Out, idx: &str, n: usize, mib: usize) {
     let kname = KINDS[0];
     let op = format!("wtmo {} 0 {} {}", idx, n, mib);
     out.begin(&op);
+    if stop_now(out) {
+        return;
+    }
     let ops = [op.clone()];
     let Ok(mut s) = h.open(0) else { return };
     if let Cl::B(cl) = &s.cl {
@@ -2707,6 +2822,9 @@ fn run_lates_case_in(h: &H, out: &mut Out, fam: &str, idx: &str, kind: usize, k:
     let kname = kname_s.as_str();
     let op = format!("{} {} {} {} {}", if fam == "mux" { "mlates" } else { "lates" }, idx, kind, k, shape);
     out.begin(&op);
+    if stop_now(out) {
+        return;
+    }
     let ops = [op.clone()];
     let Ok(mut s) = h.open(kind) else { return };
     s.send(Cmd::AutoRead);
@@ -2774,7 +2892,7 @@ fn run_lates_case_in(h: &H, out: &mut Out, fam: &str, idx: &str, kind: usize, k:
             let mut errs = Vec::new();
             for c in 1..=k {
                 let Some(f) = req_of(&mut s, c) else { return };
-                errs.push(error_response(f.h.id, 7));
+                errs.push(swept_error_response(f.h.id, c));
             }
             if kind == 2 { s.send(Cmd::Send(errs)); } else { s.send(Cmd::SendRaw(errs.concat())); }
             let _ = s.srv_done();
@@ -2872,6 +2990,9 @@ fn run_batchtmo_case(h: &H, out: &mut Out, idx: &str, kind: usize, n: usize) {
     let kname = KINDS[kind];
     let op = format!("batchtmo {} {} {}", idx, kind, n);
     out.begin(&op);
+    if stop_now(out) {
+        return;
+    }
     let ops = [op.clone()];
     let Ok(mut s) = h.open(kind) else { return };
     s.send(Cmd::AutoRead);
@@ -2944,6 +3065,9 @@ fn run_batchtmo_case(h: &H, out: &mut Out, idx: &str, kind: usize, n: usize) {
 fn run_knobs_case(h: &H, out: &mut Out, idx: &str, n: usize) {
     let op = format!("knobs {} 0 {}", idx, n);
     out.begin(&op);
+    if stop_now(out) {
+        return;
+    }
     let ops = [op.clone()];
     let Ok(mut s) = h.open(0) else { return };
     if let Cl::B(cl) = &s.cl {
@@ -2997,6 +3121,9 @@ fn run_slowpeer_case(h: &H, out: &mut Out, idx: &str, kind: usize, mib: usize) {
     let kname = KINDS[kind];
     let op = format!("slowpeer {} {} {}", idx, kind, mib);
     out.begin(&op);
+    if stop_now(out) {
+        return;
+    }
     let ops = [op.clone()];
     let Ok(mut s) = h.open(kind) else { return };
     s.call_v(h, 0, 0, None);
@@ -3043,6 +3170,57 @@ fn run_slowpeer_case(h: &H, out: &mut Out, idx: &str, kind: usize, mib: usize) {
     s.send(Cmd::Close);
 }
 
+/// A response that arrives in two halves with a pause of `ms` between them, while the call waits without
+/// a timeout (and a second call waits with a generous one): a slow peer is not a dead one; both calls get
+/// their answers whatever the pause.
+fn run_stallfrag_case(h: &H, out: &mut Out, idx: &str, kind: usize, ms: u64) {
+    let kname = KINDS[kind];
+    let op = format!("stallfrag {} {} {}", idx, kind, ms);
+    out.begin(&op);
+    if stop_now(out) {
+        return;
+    }
+    let ops = [op.clone()];
+    let Ok(mut s) = h.open(kind) else { return };
+    s.call_v(h, 0, 10, None);
+    s.call_v(h, 1, 3, Some(Duration::from_millis(ms * 3 + 5000)));
+    let frames = match s.read(2) {
+        Ok(f) => f,
+        Err(e) => {
+            out.oracle_fail(&format!("deadconn.{}.setup", kname), &e, &ops);
+            return;
+        }
+    };
+    let mut wire = Vec::new();
+    for f in &frames {
+        let c = caller_of(f).unwrap_or(0);
+        let m = response_v(f.h.id, false, c as i64, c as i64, variant_of(f));
+        wire.extend(if kind == 2 { ws_frame(0x82, &m) } else { m });
+    }
+    // first piece ends inside the first frame's header, second inside the second frame's body
+    let cut1 = 30usize;
+    let cut2 = wire.len() - 9;
+    s.send(Cmd::SendRaw(wire[..cut1].to_vec()));
+    let _ = s.srv_done();
+    s.send(Cmd::Sleep(Duration::from_millis(ms)));
+    let _ = s.srv_done();
+    s.send(Cmd::SendRaw(wire[cut1..cut2].to_vec()));
+    let _ = s.srv_done();
+    s.send(Cmd::Sleep(Duration::from_millis(ms)));
+    let _ = s.srv_done();
+    s.send(Cmd::SendRaw(wire[cut2..].to_vec()));
+    let _ = s.srv_done();
+    let a = own(&s.res_of(0, call_watchdog()), 0);
+    let b = own(&s.res_of(1, call_watchdog()), 1);
+    if a != "own" || b != "own" {
+        out.oracle_fail(&format!("deadconn.{}.slow_delivery_taken_for_failure", kname), &format!("responses delivered in three pieces {} ms apart: the calls returned {} and {}", ms, a, b), &ops);
+        if a == "HANG" || b == "HANG" { saw_hang(); }
+    }
+    let canon = |x: &str| if x == "own" { "own" } else if x == "HANG" { "HANG" } else { "Err" };
+    out.case(&op, &format!("{} got {},{}", idx, canon(&a), canon(&b)), true);
+    s.send(Cmd::Close);
+}
+
 fn gen_dead(args: &Args, r: &mut Rng) -> Vec<DeadCase> {
     let mut v = Vec::new();
     let resp_len = response(1, false, 0, 0).len();
@@ -3067,6 +3245,15 @@ fn gen_dead(args: &Args, r: &mut Rng) -> Vec<DeadCase> {
                 let cut = if *fault == "cut" { cuts[(rep + r.below(7) as usize) % cuts.len()] + if kind == 2 { 2 } else { 0 } } else { 0 };
                 v.push(DeadCase { kind, n, tmo: r.chance(1, 2), answered, fault: fault.to_string(), when: when.to_string(), cut });
             }
+        }
+        // the failure arrives while MANY calls are pending (ids in arrival, i.e. no particular, order)
+        for (j, fault) in ["close", "reset", "badspec", "cut"].iter().enumerate() {
+            let n = [40usize, 64, 33, 48][j];
+            v.push(DeadCase { kind, n, tmo: j % 2 == 1, answered: if j == 2 { 7 } else { 0 }, fault: fault.to_string(), when: "after".into(), cut: if *fault == "cut" { 24 + if kind == 2 { 2 } else { 0 } } else { 0 } });
+        }
+        if kind == 2 {
+            // a binary message beyond the client's own inbound frame limit (C17's refusal path): the calls in flight get errors
+            v.push(DeadCase { kind, n: 3, tmo: false, answered: 0, fault: "hugeframe".into(), when: "after".into(), cut: 0 });
         }
         if kind == 2 {
             // malformed binary messages whose header byte 11 (notify) is set, with and without a subscriber
@@ -3481,6 +3668,9 @@ mod sched {
         let kname = KINDS[kind];
         let op = format!("sched {} {} {} {}", idx, kind, n, actions.join(","));
         out.begin(&op);
+    if stop_now(out) {
+        return;
+    }
         let ops = [op.clone()];
         let tmo: HashSet<usize> = actions.iter().filter(|a| a.starts_with('S') && a.ends_with('t')).filter_map(|a| a[1..a.len() - 1].parse().ok()).collect();
         ctl().reset(tmo);
@@ -3746,6 +3936,7 @@ fn main() {
         srv_rt: tokio::runtime::Builder::new_multi_thread().worker_threads(1).enable_all().build().unwrap(),
     };
     let mut rng = Rng::new(args.seed);
+    entry_point_audit(&mut out);
     if let Some(ops) = args.replay_ops() {
         for (k, l) in ops.iter().enumerate() {
             let w = words(l);
@@ -3781,6 +3972,7 @@ fn main() {
                     }
                 }
                 Some("fwdres") => run_fwd_residue_case(&h, &mut out, &idx),
+                Some("stallfrag") if w.len() >= 4 => run_stallfrag_case(&h, &mut out, &idx, w[2].parse().unwrap(), w[3].parse().unwrap()),
                 Some("knobs") if w.len() >= 4 => run_knobs_case(&h, &mut out, &idx, w[3].parse().unwrap()),
                 Some("batchtmo") if w.len() >= 4 => run_batchtmo_case(&h, &mut out, &idx, w[2].parse().unwrap(), w[3].parse().unwrap()),
                 Some("slowpeer") if w.len() >= 4 => run_slowpeer_case(&h, &mut out, &idx, w[2].parse().unwrap(), w[3].parse().unwrap()),
@@ -3919,6 +4111,12 @@ fn main() {
             c += 1;
         }
         run_fwd_residue_case(&h, &mut out, "fr0");
+        // responses delivered in pieces with pauses longer than any plausible internal timer
+        for kind in 0..3 {
+            for ms in if args.thorough() { vec![300u64, 600, 1100, 2500, 5500, 11_000] } else { vec![300, 600, 1100] } {
+                run_stallfrag_case(&h, &mut out, &format!("sf{kind}_{ms}"), kind, ms);
+            }
+        }
         // a batch with a timeout and more entries than workers; a slow large write under a per-call timeout
         for kind in 0..3 {
             if out.oracle_failures >= 12 { break; }
